@@ -12,6 +12,7 @@ mod c09;
 mod c20;
 mod c19;
 mod c06;
+mod c01;
 
 fn main() {
     let args: Vec<String> = std::env::args().collect();
@@ -34,6 +35,7 @@ fn main() {
             "C20" => c20::search(seed, &budget, thorough),
             "C19" => c19::search(seed, &budget, thorough),
             "C06" => c06::search(seed, &budget, thorough),
+            "C01" => c01::search(seed, &budget, thorough),
             _ => { println!("NOORACLE"); return; }
         };
         match res {
@@ -53,6 +55,7 @@ fn main() {
             "C20" => c20::run(&input),
             "C19" => c19::run(&input),
             "C06" => c06::run(&input),
+            "C01" => c01::run(&input),
             _ => Err("no oracle".to_string()),
         };
         match r {
